@@ -3,7 +3,7 @@ import ast
 
 from ..index import AnalysisError, dotted_chain, norm, unparse, walk_no_nested, body_stmts
 from ..effects import EffectAnalyzer
-from ..util import calls_in, call_name, where, returns_of
+from ..util import calls_in, call_name, where, returns_of, parent_map
 from .. import props
 from . import common
 from .C04 import view_flow, _none_only
@@ -177,10 +177,11 @@ def rule_b(ctx, ix):
     g = data.resolve_func('_removed_derived_that_depend_on')
     if f is None or g is None:
         raise AnalysisError('Data.remove_component/_removed_derived_that_depend_on vanished')
-    pops = [c for c in calls_in(f.node) if call_name(c) in ('pop', '__delitem__') and '_components' in unparse(c.func)]
+    from ..util import key_removals, iterations, short_circuits
+    pops = key_removals(f.node, '_components')
     sweeps = [c for c in calls_in(f.node) if call_name(c) == g.name]
-    ok = bool(pops) and bool(sweeps) and pops[0].lineno < sweeps[0].lineno and \
-        unparse(sweeps[0].args[0]) == unparse(pops[0].args[0])
+    ok = bool(pops) and bool(sweeps) and pops[0][0].lineno < sweeps[0].lineno and \
+        unparse(sweeps[0].args[0]) == unparse(pops[0][1])
     ctx.ob(R, f.construct, 'the dependent sweep follows the removal, for the removed identifier', ok,
            detail='Data.remove_component does not sweep the dependents of the removed identifier after popping it', where=f.where)
     # selection by get_from_ids membership
@@ -189,12 +190,16 @@ def rule_b(ctx, ix):
            and unparse(n.left) == p and 'get_from_ids' in unparse(n.comparators[0])]
     ctx.ob(R, g.construct, 'dependents are those whose link reads the removed identifier', bool(sel),
            detail='the dependent sweep no longer selects derived components by `removed in link.get_from_ids()`', where=g.where)
-    loops = [n for n in walk_no_nested(g.node) if isinstance(n, ast.For) and 'derived_components' in unparse(n.iter)]
-    ctx.ob(R, g.construct, 'every derived component is examined', len(loops) == 1 and
-           not any(isinstance(x, (ast.Break, ast.Return)) for x in ast.walk(loops[0])) if loops else False,
+    pm_g = parent_map(g.node)
+    scans = [(it, tg, owner, kind) for it, tg, owner, kind in iterations(g.node) if 'derived_components' in unparse(it)]
+    ok = len(scans) == 1
+    if ok:
+        it, tg, owner, kind = scans[0]
+        ok = not any(isinstance(x, (ast.Break, ast.Return)) for x in ast.walk(owner)) if kind == 'for' else not short_circuits(pm_g, owner)
+    ctx.ob(R, g.construct, 'every derived component is examined', ok,
            detail='the dependent sweep does not examine every derived component', where=g.where)
     rec = [c for c in calls_in(g.node) if unparse(c.func) == '%s.remove_component' % g.self_name]
-    direct = [c for c in calls_in(g.node) if call_name(c) in ('pop', '__delitem__') and '_components' in unparse(c.func)]
+    direct = key_removals(g.node, '_components')
     ctx.ob(R, g.construct, 'dependents are removed through remove_component (recursion => transitive closure, messages)',
            bool(rec) and not direct,
            detail='the dependent sweep removes dependents %s: attributes derived from a removed dependent survive (and no message '
